@@ -120,14 +120,15 @@ func loadBaseline(verif, prop string) map[string]bool {
 }
 
 type checkRun struct {
-	eng      *Engine
-	targets  map[string]target
-	prop     string
-	results  []*FuncResult
-	wall     float64
-	loadErr  string
-	specErrs []string
-	stale    []string
+	eng                 *Engine
+	targets             map[string]target
+	prop                string
+	results             []*FuncResult
+	wall                float64
+	loadErr             string
+	specErrs            []string
+	stale               []string
+	immutableViolations []string
 }
 
 func runProperty(repo, verif, prop string, timeoutMs int, thorough bool) *checkRun {
@@ -143,6 +144,7 @@ func runProperty(repo, verif, prop string, timeoutMs int, thorough bool) *checkR
 	cr.targets = map[string]target{}
 	cr.specErrs = eng.cs.Errors
 	cr.stale = eng.staleContracts()
+	cr.immutableViolations = eng.checkImmutables()
 	ts := eng.selectTargets(prop)
 	workDir := filepath.Join(verif, "work", prop)
 	os.RemoveAll(workDir)
@@ -350,6 +352,9 @@ func cmdCheck(repo, verif, prop, tier string, timeoutMs int, verbose bool) int {
 			}
 			emitViolation(n, fmt.Sprintf("obligation %s is in the committed baseline but is no longer generated (contract stale: function, clause or site vanished)\n", n), true)
 		}
+	}
+	for _, iv := range cr.immutableViolations {
+		emitViolation("engine/immutable", iv, true)
 	}
 	for _, s := range cr.stale {
 		if strings.Contains(s, "::") {
